@@ -307,6 +307,7 @@ def engine_check(prop, tier, seed, work, replay):
         dr.generic("start", "holdem-start", ["-seed", seed])
     if prop == "C14":
         dr.random("shuffle", T["shuffle_runs"], seed * 1000 + 79, ["-realshuffle"], runbase=3000000)
+        dr.random("fulldeck", 40 if tier == "quick" else 600, seed * 1000 + 81, ["-fulldeck", "-wrong=false"], runbase=3500000)
     # the known-finding shape (F6) is exercised apart so that it cannot mask anything
     dr_kf = None
     if prop == "C13":
